@@ -675,7 +675,116 @@ def r10_membership_within_box(repo: Repo, rep):
         rep.check(R, ok, fi.site(node), fi.fq, "bound <= radius (the box uses centre ± radius)", f"bound {bound!r}", f"bound {bound!r}")
 
 
+# ------------------------------------------------------------------ R-C18-11 / 12 / 13
+def r11_same_space_operands(repo: Repo, rep):
+    R = rep.rule("R-C18-11", "union / cut / intersection accept only operands in the SAME space, variable order included (order-sensitive Space equality): their boxes are merged entry by entry", floor=7,
+                 why="with operands in x*y and y*x the y-interval of one is merged into the x-axis of the other: the box misses part of the set")
+    from ..util import norm_compare
+    dom = repo.cls("problem.domains.domain.Domain")
+    for name in ("__add__", "__sub__", "__and__"):
+        fi = dom.methods.get(name)
+        if fi is None:
+            raise AnalysisError(f"Domain.{name} vanished")
+        rep.saw(fi)
+        other = fi.params[1]
+        sides = sorted(["self.space", f"{other}.space"])
+        guarded = False
+        for p in paths(fi.node):
+            if p.ret is not RAISE:
+                continue
+            for g, pol, k in p.guards:
+                op, l, r, pl = norm_compare(g, pol)
+                if op == "==" and [l, r] == sides and not pl:
+                    guarded = True
+        rep.check(R, guarded, fi.site(), fi.fq, f"raises when self.space != {other}.space (compared as Spaces)", "no such raising guard", f"{name}: no order-sensitive space guard")
+    for mod, cname in (("union", "UnionDomain"), ("cut", "CutDomain"), ("intersection", "IntersectionDomain")):
+        ci = repo.cls(f"problem.domains.domainoperations.{mod}.{cname}")
+        init = ci.methods.get("__init__")
+        if init is None:
+            raise AnalysisError(f"{cname}.__init__ vanished")
+        rep.saw(init)
+        a, b = init.params[1], init.params[2]
+        sides = sorted([f"{a}.space", f"{b}.space"])
+        ok = False
+        for n in ast.walk(init.node):
+            if isinstance(n, ast.Assert):
+                op, l, r, pl = norm_compare(n.test, True)
+                ok = ok or (op == "==" and [l, r] == sides and pl)
+        for p in paths(init.node):
+            if p.ret is RAISE:
+                for g, pol, k in p.guards:
+                    op, l, r, pl = norm_compare(g, pol)
+                    ok = ok or (op == "==" and [l, r] == sides and not pl)
+        rep.check(R, ok, init.site(), init.fq, f"asserts {a}.space == {b}.space (compared as Spaces)", "no such assertion", f"{cname}: no order-sensitive space assertion")
+    sp = repo.cls("problem.spaces.space.Space")
+    eq = sp.methods.get("__eq__")
+    good = eq is not None and any(isinstance(c, ast.Call) and dump(c.func) == "OrderedDict.__eq__" for c in ast.walk(eq.node))
+    if eq is not None:
+        rep.saw(eq)
+    rep.check(R, good, eq.site() if eq else sp.module.relpath, sp.fq + ".__eq__", "Space equality is OrderedDict equality (order-sensitive)", "another comparison", "Space.__eq__")
+
+
+def r12_box_dtype(repo: Repo, rep):
+    R = rep.rule("R-C18-12", "the tensor a bounding_box returns does not take its dtype from user-supplied shape data (`dtype=center.dtype`): integer shape values would truncate the bounds", floor=10,
+                 why="bounds computed in floating point and cast to an integer dtype are rounded toward zero: the box no longer encloses the set")
+    n = 0
+    for mname, m in repo.modules.items():
+        if ".problem.domains." not in mname:
+            continue
+        for ci in m.classes.values():
+            fi = ci.methods.get("bounding_box")
+            if fi is None:
+                continue
+            n += 1
+            rep.saw(fi)
+            bad = [dump(k.value) for c in ast.walk(fi.node) if isinstance(c, ast.Call) for k in c.keywords if k.arg == "dtype" and isinstance(k.value, ast.Attribute) and k.value.attr == "dtype"]
+            bad += [dump(c)[:50] for c in ast.walk(fi.node) if isinstance(c, ast.Call) and isinstance(c.func, ast.Attribute) and c.func.attr in ("to", "type", "type_as") and c.args
+                    and isinstance(c.args[0], ast.Attribute) and c.args[0].attr == "dtype"]
+            rep.check(R, not bad, fi.site(), fi.fq, "no dtype inherited from shape data", str(bad), f"{ci.name}: dtype {bad}")
+    if n == 0:
+        rep.undecided(R, "src/torchphysics/problem/domains", "-", "bounding_box methods", "none found")
+
+
+def r13_user_box_order(repo: Repo, rep):
+    R = rep.rule("R-C18-13", "a user-supplied box (set_bounding_box) is stored as given - a list in the order of the product's space - never re-assembled in another order", floor=1,
+                 why="flattening a per-variable mapping in the caller's insertion order reports the t-interval for an x-axis")
+    ci = repo.cls("problem.domains.domainoperations.product.ProductDomain")
+    fi = ci.methods.get("set_bounding_box")
+    if fi is None:
+        raise AnalysisError("ProductDomain.set_bounding_box vanished")
+    rep.saw(fi)
+    prm = fi.params[1]
+    rebinds = [n for n in ast.walk(fi.node) if isinstance(n, (ast.Assign, ast.AugAssign)) for t in (n.targets if isinstance(n, ast.Assign) else [n.target]) if isinstance(t, ast.Name) and t.id == prm]
+    stores = [n for n in ast.walk(fi.node) if isinstance(n, ast.Assign) and any(dump(t) == "self.bounds" for t in n.targets)]
+    if not stores:
+        rep.violation(R, fi.site(), fi.fq, "self.bounds = bounds", "no store", "no store")
+        return
+    for st in stores:
+        direct = dump(st.value) == prm
+        if direct and not rebinds:
+            rep.ok(R, fi.site(st), fi.fq, "the given list is stored unchanged", dump(st))
+            continue
+        srcs = rebinds if direct else [st]
+        verdicts = []
+        for rb in srcs:
+            v = rb.value
+            gens = [g for c in ast.walk(v) if isinstance(c, (ast.ListComp, ast.GeneratorExp)) for g in c.generators]
+            over_space = bool(gens) and dump(gens[0].iter) in ("self.space", "self.space.keys()", "self.space.variables", "list(self.space.keys())", "list(self.space)")
+            over_arg = any(dump(g.iter).startswith(prm) for g in gens) or any(isinstance(c, ast.Call) and isinstance(c.func, ast.Attribute) and c.func.attr in ("values", "items") and dump(c.func.value) == prm for c in ast.walk(v))
+            verdicts.append((over_space, over_arg, dump(rb)[:90]))
+        if any(a and not s for s, a, t in verdicts):
+            t = next(t for s, a, t in verdicts if a and not s)
+            rep.violation(R, fi.site(st), fi.fq, "bounds assembled in the order of self.space", f"assembled in the caller's order: {t}", f"re-assembled: {t}")
+        elif all(s for s, a, t in verdicts):
+            rep.ok(R, fi.site(st), fi.fq, "bounds assembled by iterating self.space", verdicts[0][2])
+        else:
+            rep.undecided(R, fi.site(st), fi.fq, "stored bounds recognisable as the given list or as assembled in space order", verdicts[0][2])
+
+
 def run(repo: Repo, rep):
+    r11_same_space_operands(repo, rep)
+    r12_box_dtype(repo, rep)
+    r13_user_box_order(repo, rep)
     r10_membership_within_box(repo, rep)
     r9_no_rounding(repo, rep)
     r1_r2_primitives(repo, rep)
